@@ -130,6 +130,10 @@ func ExecLin(c LinCase) *vkit.Result {
 			res.Skip("op:not-in-facade")
 			return false
 		}
+		if isWide(c.Impl) && o.Key.T == "nil" {
+			res.Skip("op:nil-key-on-wide")
+			return false
+		}
 		return true
 	}
 	var prefix []Op
@@ -206,6 +210,11 @@ func ExecLin(c LinCase) *vkit.Result {
 	for _, p := range per {
 		hist = append(hist, p...)
 	}
+	for _, o := range hist {
+		if out := o.Output.(Out); out.Bad != "" {
+			return res.Failf(c.Impl+"/StatsJSON/parse", "called concurrently, %s, which is not a JSON object of the four numbers Length, Size, Capacity, Evictions", out.Bad)
+		}
+	}
 	nConc := len(hist)
 	// what is left, observed at rest
 	keys := distinctKeys(append([][]Op{prefix}, progs...)...)
@@ -256,7 +265,7 @@ func ExecLin(c LinCase) *vkit.Result {
 	} else {
 		for _, o := range hist {
 			in, out := o.Input.(linIn), o.Output.(Out)
-			if (in.Op.K == kStats && out.N[3] > 0) || (in.Op.K == kEvs && out.N[0] > 0) || len(out.Removed) > 0 {
+			if ((in.Op.K == kStats || in.Op.K == kSJSON) && out.N[3] > 0) || (in.Op.K == kEvs && out.N[0] > 0) || len(out.Removed) > 0 {
 				res.NonTrivial = true
 				res.Class("eviction")
 			}
@@ -296,7 +305,14 @@ func ExecLin(c LinCase) *vkit.Result {
 }
 
 var linFullKinds = weighted(kSet, 16, kSagr, 12, kSia, 7, kGet, 14, kPeek, 6, kExist, 4, kDel, 8, kSetCap, 3, kClear, 2,
-	kKeys, 6, kItems, 3, kStats, 5, kEvs, 3, kLen, 2, kSize, 2, kCap, 1)
+	kKeys, 6, kItems, 3, kStats, 5, kSJSON, 5, kEvs, 3, kLen, 2, kSize, 2, kCap, 1)
+
+// three focused mixtures for the single caches: capacity changes next to dense whole-state snapshots (a shrink and its
+// evictions are one step: no snapshot may show size > capacity), and Clear next to stores and listings (Clear is one
+// step: what a listing saw before it is gone after it, what was stored after it stays)
+var linResizeKinds = weighted(kSetCap, 14, kSet, 14, kSagr, 6, kSia, 2, kStats, 12, kSJSON, 12, kSize, 3, kLen, 2, kCap, 2, kGet, 4, kDel, 3, kItems, 3)
+var linClearKinds = weighted(kClear, 8, kSet, 12, kSagr, 5, kSia, 3, kKeys, 12, kItems, 8, kStats, 8, kSJSON, 3, kLen, 6, kGet, 5, kExist, 5, kPeek, 3, kDel, 1)
+var linRecencyKinds = weighted(kGet, 24, kSet, 16, kSagr, 16, kSia, 4, kKeys, 8, kItems, 4, kPeek, 3, kExist, 2, kDel, 2)
 var fillKinds = weighted(kSet, 3, kSagr, 1)
 
 func genImpl(t *rapid.T) string {
@@ -308,6 +324,7 @@ func GenLin(t *rapid.T) LinCase {
 	var pool []Key
 	kinds := linFullKinds
 	sizeRef := int64(0)
+	fillAll, oneSize, busy := false, false, false
 	if isWide(c.Impl) {
 		c.XHash = rapid.Bool().Draw(t, "xhash")
 		c.Shards = rapid.SampledFrom([]int{1, 2, 3, 7}).Draw(t, "shards")
@@ -324,6 +341,25 @@ func GenLin(t *rapid.T) LinCase {
 		}
 		pool = genPool(t, universe, 2, 4)
 		sizeRef = c.Cap
+		// rapid's integer draws favour the ends of a range: 0..6 is a little more than half of the draws, 7..11 about
+		// 18 %, 12..15 about 14 %, 16..19 about 15 %
+		switch mix := rapid.IntRange(0, 19).Draw(t, "mixture"); {
+		case mix < 7:
+		case mix >= 16:
+			kinds = linResizeKinds
+		case mix < 12:
+			// a full cache of 4-6 one-size entries: a Clear that is not one step has that many points at which a
+			// listing or a count can see half of it
+			kinds, fillAll, oneSize = linClearKinds, true, true
+			pool = genPool(t, universe, 4, 6)
+			c.Cap = int64(rapid.IntRange(len(pool)-1, 8).Draw(t, "cap"))
+		default:
+			// a full cache of 2-3 one-size entries, 3-5 keys, Gets next to evicting stores: which entry a store
+			// evicts depends on every refresh having happened exactly when its Get did
+			kinds, fillAll, oneSize, busy = linRecencyKinds, true, true, true
+			pool = genPool(t, universe, 3, 5)
+			c.Cap = int64(rapid.IntRange(2, 3).Draw(t, "cap"))
+		}
 	}
 	// sizes 0..4 and capacities 0..6 keep several entries in play
 	small := func(g *rapid.Generator[Op], yields bool) *rapid.Generator[Op] {
@@ -339,13 +375,26 @@ func GenLin(t *rapid.T) LinCase {
 		})
 	}
 	profile := genProfile(t)
+	if oneSize {
+		profile = 3
+	}
 	fill := fillKinds
 	if isWide(c.Impl) {
 		fill = []string{kSet}
 	}
-	c.Prefix = rapid.SliceOfN(small(opGen(fill, pool, profile, sizeRef, 6), false), 0, 6).Draw(t, "prefix")
+	if fillAll {
+		for _, k := range pool {
+			c.Prefix = append(c.Prefix, Op{K: kSet, Key: k, Size: 1})
+		}
+	} else {
+		c.Prefix = rapid.SliceOfN(small(opGen(fill, pool, profile, sizeRef, 6), false), 0, 6).Draw(t, "prefix")
+	}
 	prog := rapid.SliceOfN(small(opGen(kinds, pool, profile, sizeRef, 6), true), 3, 6)
-	c.Progs = rapid.SliceOfN(prog, 2, 4).Draw(t, "progs")
+	if busy {
+		c.Progs = rapid.SliceOfN(rapid.SliceOfN(small(opGen(kinds, pool, profile, sizeRef, 6), true), 4, 7), 3, 4).Draw(t, "progs")
+	} else {
+		c.Progs = rapid.SliceOfN(prog, 2, 4).Draw(t, "progs")
+	}
 	if c.Impl == implTiny || c.Impl == implWTiny {
 		sprinkleNil(t, c.Prefix)
 		for i := range c.Progs {
@@ -357,7 +406,7 @@ func GenLin(t *rapid.T) LinCase {
 
 var PartLin = &vkit.Part[LinCase]{
 	Property: Property, Name: "race-lin",
-	Rule:  "rapid: implementation (both single caches, both wide packages with modulo/xxhash routing and 1|2|3|7 shards), small capacity, 2-4 keys (wide: 2-3 keys of one shard), a sequential prefix of 0-6 storing calls, then 2-4 goroutines x 3-6 calls (every public method incl. Keys/Items/Stats observers; facade methods for wide) released together, GOMAXPROCS 1|2|4|8, optional yields; call/return stamps from one atomic counter; a final Keys+Items+Stats (wide: Peek of every key) at rest closes the history. Oracle: porcupine v1.3.0 decides linearizability of the history w.r.t. the ideal LRU (per shard for wide; SetIfAbsent-on-present refresh and Clear's effect on the eviction counter are nondeterministic in the model). Runs in the -race binary. Non-trivial: an eviction is visible in the history (evictions > 0, a non-empty removed list, or for wide a stored, never deleted key that is gone); distinct = distinct case JSON",
+	Rule:  "rapid: implementation (both single caches, both wide packages with modulo/xxhash routing and 1|2|3|7 shards), small capacity, 2-4 keys (wide: 2-3 keys of one shard), a sequential prefix of 0-6 storing calls, then 2-4 goroutines x 3-6 calls (every public method incl. Keys/Items/Stats/StatsJSON observers; facade methods for wide; for the single caches about 15 % of the cases draw from a SetCapacity+Stats/StatsJSON-heavy mixture, 18 % from a Clear+Set+Keys/Items/Length-heavy one on a full cache of 4-6 one-size entries, 14 % from a Get+evicting-store mixture on a full cache of 2-3 entries with 3-5 keys (3-4 goroutines x 4-7 calls)) released together, GOMAXPROCS 1|2|4|8, optional yields; call/return stamps from one atomic counter; a final Keys+Items+Stats (wide: Peek of every key) at rest closes the history. Oracle: porcupine v1.3.0 decides linearizability of the history w.r.t. the ideal LRU (per shard for wide; SetIfAbsent-on-present refresh and Clear's effect on the eviction counter are nondeterministic in the model). Runs in the -race binary. Non-trivial: an eviction is visible in the history (evictions > 0, a non-empty removed list, or for wide a stored, never deleted key that is gone); distinct = distinct case JSON",
 	Quick: 3000, Thorough: 4000,
 	Gen: GenLin, Exec: ExecLin,
 }
@@ -439,6 +488,8 @@ func ExecStress(c StressCase) *vkit.Result {
 				res.Skip("op:" + opProblem(o))
 			case wide && !facadeOp(o.K):
 				res.Skip("op:not-in-facade")
+			case wide && o.Key.T == "nil":
+				res.Skip("op:nil-key-on-wide")
 			case mode == modeConserve && (o.K == kSet || o.K == kSia || o.K == kDel || o.K == kClear || o.K == kSetCap):
 				res.Skip("op:not-in-conserve-mode")
 			default:
@@ -464,8 +515,36 @@ func ExecStress(c StressCase) *vkit.Result {
 	maxCap := c.Cap
 	hasClear := false
 	var pool []Key
+	suffix := normOps(c.Suffix)
+	if wide {
+		suffix = wideOps(res, suffix)
+	}
+	// every entry the cache can hold during the stress has one of the sizes the programs store
+	minSz, maxSz := int64(-1), int64(0)
+	for _, p := range progs {
+		for _, o := range p {
+			if storing(o.K) {
+				sz := int64(o.Size)
+				if unit {
+					sz = 1
+				}
+				if minSz < 0 || sz < minSz {
+					minSz = sz
+				}
+				if sz > maxSz {
+					maxSz = sz
+				}
+			}
+		}
+	}
+	if minSz < 0 {
+		minSz = 0
+	}
+	if minSz == maxSz && maxSz > 0 {
+		res.Class("all items of one size: Size = size x Length in every snapshot")
+	}
 	if mode == modeFree {
-		pool = distinctKeys(append(append([][]Op{}, progs...), c.Suffix)...)
+		pool = distinctKeys(append(append([][]Op{}, progs...), suffix)...)
 		for g, p := range progs {
 			for j, o := range p {
 				switch o.K {
@@ -585,15 +664,23 @@ func ExecStress(c StressCase) *vkit.Result {
 						if mode == modeConserve {
 							removed[g] = append(removed[g], out.Removed...)
 						}
-					case kStats:
+					case kStats, kSJSON:
+						if out.Bad != "" {
+							fail(api+"/parse", "%s, which is not a JSON object of the four numbers Length, Size, Capacity, Evictions", out.Bad)
+							break
+						}
 						if out.N[1] > out.N[2] {
-							fail(api+"/bound", "Stats() = %s: size exceeds capacity", out.show(kStats))
+							fail(api+"/bound", "%s() = %s: size exceeds capacity", api, out.show(kStats))
 						}
 						if out.N[0] < 0 || out.N[1] < 0 || out.N[3] < 0 || (mode == modeFree && out.N[0] > universeSize) {
-							fail(api+"/range", "Stats() = %s with %d distinct keys in play", out.show(kStats), universeSize)
+							fail(api+"/range", "%s() = %s with %d distinct keys in play", api, out.show(kStats), universeSize)
 						}
 						if mode == modeFree && !caps[out.N[2]] {
-							fail(api+"/capacity", "Stats() = %s: capacity was never set to that", out.show(kStats))
+							fail(api+"/capacity", "%s() = %s: capacity was never set to that", api, out.show(kStats))
+						}
+						// one snapshot: Length entries, each of a size some call stores, sum to Size
+						if out.N[1] < out.N[0]*minSz || out.N[1] > out.N[0]*maxSz {
+							fail(api+"/snapshot", "%s() = %s: every item ever stored has a size in %d..%d, so %d entries cannot sum to size %d - length and size are not one snapshot of the cache", api, out.show(kStats), minSz, maxSz, out.N[0], out.N[1])
 						}
 						if !hasClear {
 							if out.N[3] < lastEv {
@@ -713,7 +800,7 @@ func ExecStress(c StressCase) *vkit.Result {
 		}
 		// everything deleted: the cache must behave like a new one
 		w := newWideIdeal(unit, c.Cap, c.Shards, idx)
-		for i, op := range normOps(c.Suffix) {
+		for i, op := range suffix {
 			if opProblem(op) != "" || !facadeOp(op.K) {
 				res.Skip("op:suffix-skipped")
 				continue
@@ -822,7 +909,7 @@ func ExecStress(c StressCase) *vkit.Result {
 		}
 	}
 	// the state left behind must still be an ideal LRU: sequential suffix
-	for i, op := range normOps(c.Suffix) {
+	for i, op := range suffix {
 		if opProblem(op) != "" {
 			res.Skip("op:suffix-skipped")
 			continue
@@ -846,10 +933,15 @@ func progsContain(progs [][]Op, kind string) bool {
 }
 
 var stressFullKinds = weighted(kSet, 18, kSagr, 12, kSia, 8, kGet, 16, kPeek, 8, kExist, 5, kDel, 8, kSetCap, 2, kClear, 1,
-	kKeys, 3, kItems, 3, kStats, 5, kEvs, 2, kLen, 2, kSize, 2, kCap, 1)
+	kKeys, 3, kItems, 3, kStats, 5, kSJSON, 5, kEvs, 2, kLen, 2, kSize, 2, kCap, 1)
 var stressNoResetKinds = weighted(kSet, 18, kSagr, 12, kSia, 8, kGet, 16, kPeek, 8, kExist, 5, kDel, 8,
-	kKeys, 3, kItems, 3, kStats, 6, kEvs, 3, kLen, 2, kSize, 2, kCap, 1)
-var conserveKinds = weighted(kSagr, 30, kGet, 14, kPeek, 8, kExist, 4, kKeys, 2, kItems, 3, kStats, 5, kEvs, 2, kLen, 1, kSize, 2)
+	kKeys, 3, kItems, 3, kStats, 5, kSJSON, 5, kEvs, 3, kLen, 2, kSize, 2, kCap, 1)
+var conserveKinds = weighted(kSagr, 30, kGet, 14, kPeek, 8, kExist, 4, kKeys, 2, kItems, 3, kStats, 4, kSJSON, 4, kEvs, 2, kLen, 1, kSize, 2)
+
+// the "resize" shape of the free mode: goroutine 0 raises the capacity, stores, and shrinks it again, over and over;
+// the others mostly take whole-state snapshots
+var resizeStoreKinds = weighted(kSet, 3, kSagr, 1, kSia, 1)
+var resizeReaderKinds = weighted(kStats, 8, kSJSON, 8, kSize, 2, kLen, 1, kCap, 1, kEvs, 1, kGet, 3, kPeek, 2, kItems, 1)
 
 func GenStress(t *rapid.T) StressCase {
 	c := StressCase{Impl: genImpl(t), MaxProcs: rapid.SampledFrom([]int{2, 4, 8, 8}).Draw(t, "maxprocs"), Mode: modeFree}
@@ -885,6 +977,13 @@ func GenStress(t *rapid.T) StressCase {
 		sizeRef = c.Cap
 	}
 	profile := genProfile(t)
+	if c.Impl == implCache && rapid.IntRange(0, 2).Draw(t, "onesize") == 0 {
+		profile = 3 // every item has size 1: the snapshot oracle Size = Length is exact
+	}
+	resize := !isWide(c.Impl) && c.Mode == modeFree && rapid.IntRange(0, 9).Draw(t, "shape") >= 6 // about a third of the draws
+	if resize {
+		kinds = resizeReaderKinds
+	}
 	base := opGen(kinds, pool, profile, sizeRef, 20)
 	conserve := c.Mode == modeConserve
 	call := rapid.Custom(func(t *rapid.T) Op {
@@ -899,7 +998,20 @@ func GenStress(t *rapid.T) StressCase {
 		op.Y = rapid.IntRange(0, 7).Draw(t, "yield") == 0
 		return op
 	})
-	c.Progs = rapid.SliceOfN(rapid.SliceOfN(call, 6, 24), 3, 8).Draw(t, "progs")
+	if resize {
+		var p0 []Op
+		for b := rapid.IntRange(1, 3).Draw(t, "blocks"); b > 0; b-- {
+			big := int64(rapid.IntRange(4, 20).Draw(t, "bigcap"))
+			p0 = append(p0, Op{K: kSetCap, Cap: big})
+			for n := rapid.IntRange(2, 6).Draw(t, "stores"); n > 0; n-- {
+				p0 = append(p0, opGen(resizeStoreKinds, pool, profile, big, 20).Draw(t, "store"))
+			}
+			p0 = append(p0, Op{K: kSetCap, Cap: int64(rapid.IntRange(0, 3).Draw(t, "smallcap"))})
+		}
+		c.Progs = append([][]Op{p0}, rapid.SliceOfN(rapid.SliceOfN(call, 6, 24), 2, 5).Draw(t, "progs")...)
+	} else {
+		c.Progs = rapid.SliceOfN(rapid.SliceOfN(call, 6, 24), 3, 8).Draw(t, "progs")
+	}
 	sk := seqKinds
 	if isWide(c.Impl) {
 		sk = wideKinds
@@ -910,7 +1022,7 @@ func GenStress(t *rapid.T) StressCase {
 
 var PartStress = &vkit.Part[StressCase]{
 	Property: Property, Name: "race-stress",
-	Rule:  "rapid: implementation as in race-lin, capacity 0..20 (tiny 0..8; wide: per-shard share 1..8), 3-8 goroutines each repeating a generated program of 6-24 calls 10-300 times (1000 thorough) with real concurrency (GOMAXPROCS 2|4|8), under the race detector, no shared memory between goroutines but the cache. free mode: all public methods on a shared pool of 3-12 keys; every hit must return a value stored under that key, every Stats snapshot has size <= capacity and a capacity that was set, counters in range, eviction counter monotone without Clear; at rest: keys distinct, Keys/Items/Stats/Length/Size/Capacity/Evictions mutually consistent, Size = sum of item sizes <= Capacity, index = list; wide: Exist = Peek, per-shard summed size <= capacity/shards+1, Delete of every key, then the cache must equal a fresh per-shard model on a sequential suffix. conserve mode (single caches): every storing call is SetAndGetRemoved on a never reused key, so stored values = final Items + removed lists exactly once each and Evictions = number of removed values. Single caches then run a sequential suffix of 5-25 calls against an ideal LRU seeded with the observed final state. Non-trivial: an eviction happened (evictions > 0; wide: a stored key is gone though the program never deletes); distinct = distinct case JSON",
+	Rule:  "rapid: implementation as in race-lin, capacity 0..20 (tiny 0..8; wide: per-shard share 1..8), 3-8 goroutines each repeating a generated program of 6-24 calls 10-300 times (1000 thorough) with real concurrency (GOMAXPROCS 2|4|8), under the race detector, no shared memory between goroutines but the cache. free mode: all public methods on a shared pool of 3-12 keys (the nil interface among them); every hit must return a value stored under that key, every Stats and StatsJSON snapshot parses, has size <= capacity and a capacity that was set, counters in range, Length x smallest item size <= Size <= Length x largest item size (tiny and the one-item-size cases of cache.LRUCache, one in three: Size = Length), eviction counter monotone without Clear; about a third of the free cases of the single caches have the resize shape: goroutine 0 repeats SetCapacity(4..20), 2-6 stores, SetCapacity(0..3) while 2-5 others mostly call Stats/StatsJSON; at rest: keys distinct, Keys/Items/Stats/Length/Size/Capacity/Evictions mutually consistent, Size = sum of item sizes <= Capacity, index = list; wide: Exist = Peek, per-shard summed size <= capacity/shards+1, Delete of every key, then the cache must equal a fresh per-shard model on a sequential suffix. conserve mode (single caches): every storing call is SetAndGetRemoved on a never reused key, so stored values = final Items + removed lists exactly once each and Evictions = number of removed values. Single caches then run a sequential suffix of 5-25 calls against an ideal LRU seeded with the observed final state. Non-trivial: an eviction happened (evictions > 0; wide: a stored key is gone though the program never deletes); distinct = distinct case JSON",
 	Quick: 150, Thorough: 300,
 	Gen: GenStress, Exec: ExecStress,
 }
